@@ -245,7 +245,7 @@ theorem C10_histories (ext : Ext) (fields : List Field) (r0 : B) (h0 : newRoot f
   exact C01.C01_build_decode' ext fields _ _ hschema hcov hrows hnar' hm
 
 /-- **every build returns well-formed arrays of its batch's length** (C03 along histories): the arrays of build `k` are
-well-formed Arrow arrays of the declared fields (`Spec.WF`), one per field, each of exactly `(batch k).length` rows.
+well-formed Arrow arrays of the declared fields (`Spec.WFS`), one per field, each of exactly `(batch k).length` rows.
 Hypotheses: those of `C01.C03_wf'` — `hsafe` is `Safe r0 ∨ coveredF` (decidable on the schema; excluded: a dictionary with
 NON-nullable keys and a value type other than Utf8 / LargeUtf8 below a nullable struct / fixed-size list). -/
 theorem C10_builds_wf (ext : Ext) (fields : List Field) (r0 : B) (h0 : newRoot fields = .ok r0)
@@ -256,7 +256,7 @@ theorem C10_builds_wf (ext : Ext) (fields : List Field) (r0 : B) (h0 : newRoot f
     ∀ (k : Nat) (h1 : k < outs.length) (h2 : k < (batchesFrom [] ops).length),
       outs[k].2.length = fields.length ∧
       ∀ (j : Nat) (f : Field) (a : Arr), fields[j]? = some f → outs[k].2[j]? = some a →
-        WF f a = true ∧ (decodeAll a).length = (batchesFrom [] ops)[k].length := by
+        WFS f a = true ∧ (decodeAll a).length = (batchesFrom [] ops)[k].length := by
   obtain ⟨hall, _⟩ := run_oneShot ext fields r0 h0 ops outs fin h
   obtain ⟨_, hg⟩ := Props.C03.All2_get hall
   intro k h1 h2
